@@ -49,6 +49,9 @@ type Op struct {
 	StaggerMs int `json:"stagger_ms,omitempty"`
 	// consume: ask by the versioned name of the newest version (no metadata discovery) instead of the object name
 	ByVersion bool `json:"by_version,omitempty"`
+	// consume: simulated time that passes after the fetch before the next op, if every fetch succeeded (0 = 20 s;
+	// after a failed fetch it is always 20 s, until the client's retransmissions have died down)
+	GapMs int `json:"gap_ms,omitempty"`
 	DelayMs int    `json:"delay_ms,omitempty"`
 	// restart: the producer process ends (graceful: stores closed; crash: whatever the store file holds at that
 	// instant is what survives) and a new producer starts on the durable state. DelayMs == 0: now; > 0: that long
@@ -230,8 +233,13 @@ func (Engine) Generate(prop string, r *kit.Rand, tier string) *kit.Scenario[Conf
 		}
 		sc.Ops = append(sc.Ops, o)
 	}
-	sc.Ops = append(sc.Ops, Op{Op: "consume", StaggerMs: stagger, ByVersion: r.Chance(0.2)})
-	if r.Chance(0.1) {
+	first := Op{Op: "consume", StaggerMs: stagger, ByVersion: r.Chance(0.2)}
+	again := r.Chance(0.15)
+	if again && r.Chance(0.6) {
+		first.GapMs = kit.Pick(r, []int{1, 100, 900, 1100, 3000, 3900}) // the same consumer asks again soon
+	}
+	sc.Ops = append(sc.Ops, first)
+	if again {
 		// a second round: publish a newer version (or restart) after the first fetch, fetch again
 		if r.Chance(0.6) {
 			sc.Ops = append(sc.Ops, Op{Op: "publish", Version: 5000 + uint64(r.Intn(50)), Size: kit.Pick(r, []int{1, 8000, 8001, 30000})})
@@ -962,7 +970,20 @@ func (e Engine) run(ctx *kit.Ctx, sc *kit.Scenario[Config, Op], res *kit.Result,
 				}
 				synctest.Wait()
 			}
-			time.Sleep(20 * time.Second)
+			gap := 20 * time.Second
+			if o.GapMs > 0 {
+				allOK := true
+				for _, f := range fetches {
+					if f.completions != 1 || f.cerr != nil {
+						allOK = false
+					}
+				}
+				if allOK {
+					gap = time.Duration(o.GapMs) * time.Millisecond
+					ctx.Probe("next-fetch-follows-shortly")
+				}
+			}
+			time.Sleep(gap)
 			synctest.Wait()
 			fc.drain() // retransmissions of fetches that have since failed
 			fp.drain()
@@ -1017,7 +1038,7 @@ func (e Engine) run(ctx *kit.Ctx, sc *kit.Scenario[Config, Op], res *kit.Result,
 	res.SimNanos = int64(now())
 	d := kit.NewDigest().S(sc.Config.Store).I(sc.Config.SpareCap)
 	for _, o := range sc.Ops {
-		d.S(o.Op).I(o.Obj).U(o.Version).I(o.Size).I(o.Seg).I(o.Attempt).S(o.Act).I(o.DelayMs).S(o.SOp).S(o.SName).S(o.Mut).I(o.At).U(o.Val).I(o.StaggerMs).S(fmt.Sprint(o.ByVersion))
+		d.S(o.Op).I(o.Obj).U(o.Version).I(o.Size).I(o.Seg).I(o.Attempt).S(o.Act).I(o.DelayMs).S(o.SOp).S(o.SName).S(o.Mut).I(o.At).U(o.Val).I(o.StaggerMs).S(fmt.Sprint(o.ByVersion)).I(o.GapMs)
 	}
 	res.Digest = d.Sum()
 	ctx.State(res.Digest)
